@@ -149,6 +149,8 @@ def dict_battery(tier, rng):
                 k += 1
     for lcp in (126, 127, 128, 129) + ((16383, 16384) if thorough else ()):
         out.append(("g3lcp%d" % lcp, gen.g3_lcp_chain(r, lcp, 3)))
+    for (n, kl, tl) in ((12, 4, 40), (20, 3, 220)) + (((40, 5, 220), (64, 2, 33), (33, 6, 700)) if thorough else ()):
+        out.append(("g3tail%d_%d" % (n, tl), gen.g3_common_tail(r, n, kl, tl)))
     for kk in (1, 2, 5):
         out.append(("g3sym%d" % kk, gen.g3_single_symbols(kk)))
     out.append(("g3states", gen.us_states()))
